@@ -40,11 +40,25 @@ Definition srev (s : string) : string := srev_app s EmptyString.
 Definition drop1 (s : string) : string := match s with String _ r => r | EmptyString => EmptyString end.
 Definition drop2 (s : string) : string := drop1 (drop1 s).
 
-(* unicode.Is(table, r) for a sorted table of disjoint Range16 entries *)
-Definition in_table (t : list (N * N * N)) (r : N) : bool :=
-  existsb (fun e => match e with (lo, hi, st) => (lo <=? r) && (r <=? hi) && ((r - lo) mod st =? 0) end)%N t.
+(* unicode.Is(table, r) for a sorted table of disjoint Range16 entries: some entry (lo, hi, stride) has lo <= r <= hi and
+   (r - lo) mod stride = 0.  Written with nested conditionals (not existsb / && / ||) so that evaluation inside Coq stops at
+   the first hit and does not compute the conjuncts of a failed test: same function, [in_table_existsb] below *)
+Fixpoint in_table (t : list (N * N * N)) (r : N) : bool :=
+  match t with
+  | [] => false
+  | (lo, hi, st) :: rest =>
+      if (lo <=? r)%N then
+        if (r <=? hi)%N then (if ((r - lo) mod st =? 0)%N then true else in_table rest r) else in_table rest r
+      else in_table rest r
+  end.
+Lemma in_table_existsb t r :
+  in_table t r = existsb (fun e => match e with (lo, hi, st) => (lo <=? r) && (r <=? hi) && ((r - lo) mod st =? 0) end)%N t.
+Proof.
+  induction t as [|[[lo hi] st] rest IH]; [reflexivity|]. cbn [in_table existsb]. rewrite <- IH.
+  destruct (lo <=? r)%N, (r <=? hi)%N, ((r - lo) mod st =? 0)%N; reflexivity.
+Qed.
 Definition name_start_rune (r : N) : bool := in_table name_first_table r.
-Definition name_rune (r : N) : bool := in_table name_first_table r || in_table name_second_table r.
+Definition name_rune (r : N) : bool := if in_table name_first_table r then true else in_table name_second_table r.
 
 (* isName: every rune decodes, the first is in [first], the others in [first] or [second] *)
 Fixpoint is_name_go (first : bool) (skip : nat) (s : string) : bool :=
